@@ -235,6 +235,12 @@ def run_case(spec0):
                 common.add_violation(res, bad[0] + f" [{'grouped' if spec['grouped'] else 'ungrouped'}]",
                                      dict(bad[1], vars=want, req=req, layout=ltag))
                 break
+            # what was handed out is the caller's: scribbling on it must not show in
+            # any later read (nor in the cache files scanned below)
+            for cname in comp:
+                for g in data.get(cname, []):
+                    if isinstance(g, np.ndarray) and g.flags.writeable:
+                        g[...] = -777.0
             # (b) every dataset in every cache file
             cache = scan_cache(param, spec)
             for (r, it, v, crl), arr in cache.items():
